@@ -66,15 +66,27 @@ def _contains(interp, args, kwargs, node):
     raise EngineError(f"`in` on opaque {c.tag}")
 
 
+def _variant(fn_name, args, kwargs, n_plain):
+    """the assumed contract covers the plain call only: any further argument selects a different (unrelated) result"""
+    if len(args) == n_plain and not kwargs:
+        return None
+    desc = fn_name + "|" + ",".join(repr(getattr(a, "const", None)) for a in args[n_plain:]) + "|" + ",".join(f"{k}={getattr(v, 'const', None)!r}" for k, v in sorted(kwargs.items()))
+    return z3.Function("devkit_variant_" + str(abs(hash(desc)) % 10**8), I, S, I)
+
+
 def _get_sample_data(interp, args, kwargs, node):
     nusc, token = args[0], args[1]
-    boxes = old_list(interp, BOXES_EGO(nusc.z, _sz(token)), TSObj("Box"))
+    f = _variant("get_sample_data", args, kwargs, 2)
+    f = BOXES_EGO if f is None else f
+    boxes = old_list(interp, f(nusc.z, _sz(token)), TSObj("Box"))
     return VTuple([VOpaque("path", None), boxes, VOpaque("intrinsic", None)])
 
 
 def _get_boxes(interp, args, kwargs, node):
     nusc, token = args[0], args[1]
-    return old_list(interp, BOXES_MAP(nusc.z, _sz(token)), TSObj("Box"))
+    f = _variant("get_boxes", args, kwargs, 2)
+    f = BOXES_MAP if f is None else f
+    return old_list(interp, f(nusc.z, _sz(token)), TSObj("Box"))
 
 
 def _visibility(interp, o, node):
